@@ -147,4 +147,61 @@ class Weights(Relation):
         return 'weights passed to the RNG differ from the linear distribution for %r' % (inp,)
 
 
-RELATIONS = [Dist(), Laws(), Weights()]
+class RunWeights(Relation):
+    name = 'M_run_weights'
+    kind = 'monitor'
+    requires = REQ
+    shard = 20
+    describe = ('whole generator runs Generator(argv) of all four types with -skew given on the command line (values with '
+                'many decimals, below 0.01, large, and the default), numpy.random.choice recorded: the p= vector of every '
+                'preference-list draw must be the linear distribution for the number of rankable agents and the REQUESTED '
+                'skew (exact model, 2^-40 of the largest weight); non-trivial = at least two rankable agents and skew != 1')
+
+    SKEWS = [None, '1.125', '2.6180339887', '0.004', '99.999', '3.3333333333333335', '1.005', '7', '0.5', '1e-3', '250.75']
+
+    def cases(self, ctx):
+        from .. import gencommon as G
+        rng = ctx.rng(self.name)
+        for k in range(120 if ctx.thorough else 30):
+            ns = G.legal(rng, G.MPS[k % 4])
+            sk = self.SKEWS[k % len(self.SKEWS)]
+            ns['skew'] = None if sk is None else float(sk)
+            ns['numinst'] = 1
+            yield dict(ns=ns, seed=rng.randrange(10**6))
+
+    def observe(self, inp):
+        from .. import gencommon as G
+        o = G.run_generator(inp['ns'], seed=inp['seed'])
+        ps = [list(e[3]) if e[3] is not None else None for e in o['log'] if e[0] == 'list']
+        return dict(code=o['code'], exc=o['exc'], ps=[None if q is None else [ratio(v) for v in q] for q in ps],
+                    argv=o.get('argv'))
+
+    def term(self, inp, obs):
+        ns = inp['ns']
+        if obs['code'] != 0 or len(obs['ps']) != ns['n1'] or any(q is None for q in obs['ps']):
+            return 'false'
+        n2 = ns['n1'] if ns['mp'] == 'sm' else ns['n2']
+        sk = 1.0 if ns['skew'] is None else ns['skew']
+        return '(forallb (fun p => c17_dist %s %s p) %s)' % (
+            C.cnat(n2), cq(sk), C.clist([C.clist([cq(v) for v in q]) for q in obs['ps']]))
+
+    def key(self, inp):
+        return repr((sorted(inp['ns'].items(), key=lambda kv: kv[0]), inp['seed']))
+
+    def signature(self, inp, obs):
+        return {'relation': self.name, 'ns': inp['ns'], 'seed': inp['seed']}
+
+    def nontrivial(self, inp, obs):
+        ns = inp['ns']
+        n2 = ns['n1'] if ns['mp'] == 'sm' else ns['n2']
+        return n2 >= 2 and ns['skew'] not in (None, 1.0)
+
+    def stats(self, inp, obs):
+        ns = inp['ns']
+        return {'mp=' + ns['mp']: 1, 'skew=%s' % ns['skew']: 1, 'code=%s' % obs['code']: 1}
+
+    def what(self, inp, obs):
+        return 'generator run %r: the weights handed to numpy differ from the linear distribution for the requested skew' % (obs.get('argv'),)
+
+
+RELATIONS = [Dist(), Laws(), Weights(), RunWeights()]
